@@ -77,7 +77,18 @@ def run_case(case):
         except ValueError:
             return Result(['rejected_end_before_start'], nontrivial=True)
         raise Violation('end %s earlier than start %s was accepted' % (end, start))
-    eng = q.DailyBusinessDaySimulationEngine(start, end, pre_market=case['pre'], post_market=case['post'])
+    how = case.get('flags_how', 'ctor')
+    if how == 'attr':
+        # the public flags are re-set on the live engine (it is built with the opposite values)
+        eng = q.DailyBusinessDaySimulationEngine(start, end, pre_market=not case['pre'], post_market=not case['post'])
+        eng.pre_market, eng.post_market = case['pre'], case['post']
+    elif how == 'numpy':
+        import numpy as np
+        eng = q.DailyBusinessDaySimulationEngine(start, end, pre_market=np.bool_(case['pre']), post_market=np.bool_(case['post']))
+    elif how == 'int':
+        eng = q.DailyBusinessDaySimulationEngine(start, end, pre_market=int(case['pre']), post_market=int(case['post']))
+    else:
+        eng = q.DailyBusinessDaySimulationEngine(start, end, pre_market=case['pre'], post_market=case['post'])
     got = [(e.ts, e.event_type) for e in eng]
     exp = cal.clock_events(cal.date3(case['start']), cal.date3(case['end']), case['pre'], case['post'])
     if got != exp:
@@ -96,6 +107,8 @@ def run_case(case):
                         'fly the first time they were %s... (%d / %d events)' % (again[:3], got[:3], len(again), len(got)))
     cls = gen.range_classes(case['start'], case['end'])
     cls.append('flags_%d%d' % (case['pre'], case['post']))
+    if how != 'ctor':
+        cls.append('flags_given_as_' + how)
     if tz:
         cls.append('range_given_in_another_time_zone')
     nt = any(c in cls for c in ('spans_weekend', 'single_day', 'no_business_day', 'crosses_month',
@@ -106,7 +119,8 @@ def run_case(case):
 @st.composite
 def cases(draw):
     start, end = draw(gen.ranges())
-    case = {'start': start, 'end': end, 'pre': draw(st.booleans()), 'post': draw(st.booleans())}
+    case = {'start': start, 'end': end, 'pre': draw(st.booleans()), 'post': draw(st.booleans()),
+            'flags_how': draw(st.sampled_from(['ctor', 'ctor', 'ctor', 'attr', 'numpy', 'int']))}
     if draw(st.sampled_from([False] * 5 + [True])):
         # the same instants written in another zone; times of day chosen so that the local and the UTC calendar day agree
         tz = draw(st.sampled_from(['America/New_York', 'Asia/Tokyo', 'Europe/London']))
